@@ -38,10 +38,14 @@
     from them, whatever raced with the `Offline` call (`Proofs/ConcChange.lean`). `Online` under
     interleavings is refuted (C04 `k3_online_race_overreports`: restoration is *not* exact when a
     free is in flight).
+
+  * `change_matches_source` — `Tree::change` is re-derived from the Rust source on every run
+    (`tools/rs2lean.py`, `Gen/Tree.lean`) and proved equal to the model's transition.
 -/
 import LLFreeV.Proofs.UpperInit
 import LLFreeV.Proofs.UpperPays
 import LLFreeV.Proofs.ConcChange
+import LLFreeV.Proofs.GenTree
 namespace LLFree.C15
 open LLFree
 
@@ -176,5 +180,12 @@ theorem conc_hidden_frames_stay_free (c : Cfg) (ok : CfgOk c) (H : Nat → Nat) 
   refine ⟨H', hle, hinv, fun i t ht => ?_⟩
   have := hinv.counter i t ht
   simpa using this
+
+/-- **`Tree::change` of the model is the one of the current source** (`Gen/Tree.lean`, regenerated
+    from `core/src/trees.rs` on every run): same new entry, same refusal, panic exactly together —
+    for every entry, matcher, change and fetched count. -/
+theorem change_matches_source (self : Tree) (mcls : Option Nat) (mfree : Nat) (ccls : Option Nat) (op : Option Gen.T.Op) (ff : Nat) :
+    GenTree.Sim (GenTree.ofRO (Gen.T.change self mcls mfree ⟨ccls, op⟩ ff)) (Tree.change self mcls mfree ccls (GenTree.opOf op) ff) :=
+  GenTree.change_eq self mcls mfree ccls op ff
 
 end LLFree.C15
